@@ -46,7 +46,7 @@ Functions those changes edited (choose code elsewhere if you can): {funcs}.
 {extra}
 """
 
-EXTRA = """Find a DIFFERENT mechanism with a DIFFERENT kind of trigger. Read widely first (lexer, parser, ast, object, evaluator, built-in functions, template loading in the root package, fail/, config/, ctx/, token/, utils/), including how the pieces call each other, and read the statement of the property sentence by sentence and its "Quantified over" line dimension by dimension: pick a clause, a listed construct, a listed case or a dimension of the quantifier that none of the earlier changes attacked, or attack an attacked clause through a construct, an API entry point (EvaluateString, EvaluateFile, NewTemplate, Template.String, Template.Response, Configure, the Register*Func family) or a configuration that none of them used. Prefer a change whose trigger somebody testing this property with randomly generated templates, data and call sequences would plausibly NOT generate: a legal but unusual spelling or clause form, a rarely used built-in, directive, option or API entry point, a combination of two or three constructs, a value at a boundary of a type or a length, a name or path with an unusual shape, a particular order or repetition of calls, a file system detail, a less common Go type in the data, a particular nesting depth or count (the third of something, more than N of something), a particular position (first, last, only) of something, a size threshold. It must be something a maintainer would plausibly do (a small feature or convenience with one corner wrong, a helper extracted that is not equivalent for one caller, a data structure change, a reordered check, a library call with slightly different semantics, an early return or fast path, a cache, a 'simplification', a fixed-size buffer or limit, an error message 'improvement'). The change must still break the stated property for a whole class of inputs (say which), compile, and keep the existing suite green. In this round prefer a change that shows only for a COMBINATION OF TWO OR THREE LANGUAGE FEATURES that each work alone, in a single sequential call with small inputs. Read the documentation that ships with the project (README, docs, comments, the testdata templates) to learn the features, then look for code where two of them meet: a construct nested in another (a component use inside an insert block inside a loop; an @elseif chain inside a slot body; a loop inside a loop's @else; a ternary inside an index inside a call argument; an object literal inside an array inside a component argument; a comment or a line break between the clauses of a directive; an assignment inside a @for header; break/continue under two levels of @if inside nested loops; the same slot or reserve name at two nesting levels; raw() applied to the result of a join of an array of literals; a built-in called on the result of another on the result of a property of an array element), the same construct twice in one statement (two prints in one {{ }} separated by ';', two postfix operators, two unary operators, chained ternaries, chained calls with arguments that are calls), or a construct at the edge of another (first or last statement of a block, directly before @end, directly after @else, at the very start or end of the file, adjacent to a comment). The property must still be the one broken (say which clause), for a whole class of such combinations."""
+EXTRA = """Find a DIFFERENT mechanism with a DIFFERENT kind of trigger. Read widely first (lexer, parser, ast, object, evaluator, built-in functions, template loading in the root package, fail/, config/, ctx/, token/, utils/), including how the pieces call each other, and read the statement of the property sentence by sentence and its "Quantified over" line dimension by dimension: pick a clause, a listed construct, a listed case or a dimension of the quantifier that none of the earlier changes attacked, or attack an attacked clause through a construct, an API entry point (EvaluateString, EvaluateFile, NewTemplate, Template.String, Template.Response, Configure, the Register*Func family) or a configuration that none of them used. Prefer a change whose trigger somebody testing this property with randomly generated templates, data and call sequences would plausibly NOT generate: a legal but unusual spelling or clause form, a rarely used built-in, directive, option or API entry point, a combination of two or three constructs, a value at a boundary of a type or a length, a name or path with an unusual shape, a particular order or repetition of calls, a file system detail, a less common Go type in the data, a particular nesting depth or count (the third of something, more than N of something), a particular position (first, last, only) of something, a size threshold. It must be something a maintainer would plausibly do (a small feature or convenience with one corner wrong, a helper extracted that is not equivalent for one caller, a data structure change, a reordered check, a library call with slightly different semantics, an early return or fast path, a cache, a 'simplification', a fixed-size buffer or limit, an error message 'improvement'). The change must still break the stated property for a whole class of inputs (say which), compile, and keep the existing suite green. In this round prefer a change whose trigger lies in HOW THE TEMPLATE TEXT IS WRITTEN rather than in what it means: two spellings of the same program that must behave alike, of which your change breaks one. Read the lexer and the parser closely, and the documentation that ships with the project, for every freedom the syntax gives: white space, tabs, line breaks and CR LF inside {{ }}, inside directive headers, between a directive's name and its parenthesis, between the clauses of @for, around commas, colons, dots, operators, semicolons and parentheses; comments next to or inside constructs; single versus double quotes and escapes inside strings; redundant parentheses; trailing or repeated separators where they are legal; identifiers with digits, underscores, upper case or the text of a keyword or directive name as a prefix (iffy, endless, inner, trueValue, nilly, loopy, forEach); numbers written with leading zeros, a leading minus, a trailing .0; object literals with quoted keys or shorthand keys; directive-like text that is not a directive (an e-mail address, @media, @endif, @ at the end of the file); braces in text ({ }, }}, a lone {); the position of a construct on its line or in the file (first byte, last byte, no final newline, only construct of the file); the length of a token. The change must still break the stated property (say which clause) for a whole class of spellings, while the usual spelling keeps working."""
 
 
 def funcs_of(patch):
